@@ -2418,7 +2418,7 @@ impl Zeroconf {
         listener: Sender<HostnameResolutionEvent>,
         timeout: Option<u64>,
     ) {
-        let real_timeout = timeout.map(|t| current_time_millis() + t);
+        let real_timeout = timeout.map(|t| current_time_millis().saturating_add(t));
         self.hostname_resolvers
             .insert(hostname.to_lowercase(), (listener, real_timeout));
         if let Some(t) = real_timeout {
@@ -3939,7 +3939,9 @@ impl Zeroconf {
         let expire_at = if repeating {
             None
         } else {
-            Some(now + timeout.as_millis() as u64)
+            // `timeout` can be as large as `Duration::MAX`.
+            let timeout_millis = cmp::min(timeout.as_millis(), u128::from(u64::MAX)) as u64;
+            Some(now.saturating_add(timeout_millis))
         };
 
         // send query for the resource records.
@@ -4288,7 +4290,7 @@ fn check_service_name(fullname: &str) -> Result<()> {
     let remaining: Vec<&str> = fullname[..fullname.len() - DOMAIN_LEN].split('.').collect();
     let name = remaining.last().ok_or_else(|| e_fmt!("No service name"))?;
 
-    if &name[0..1] != "_" {
+    if !name.starts_with('_') {
         return Err(e_fmt!("Service name must start with '_'"));
     }
 
